@@ -228,6 +228,30 @@ func rulesPersistGuard(c *Ctx, r *Report) {
 				okB = false
 			}
 			_ = clearers
+			if !okA && !okB && fn.Parent() == nil {
+				// the clearing extracted into a private helper: discipline A must hold at
+				// every place the helper is called from
+				callers := c.CallsTo(funcName(fn))
+				all, n := true, 0
+				for _, hc := range callers {
+					if c.isFixture(hc.Caller) {
+						continue
+					}
+					n++
+					oka := false
+					for _, up := range callsInNamed(hc.Caller, "(*lib/persistedretry/writeback.Executor).upload") {
+						if inSuccessRegion(up.Instr, hc.Instr) {
+							oka = true
+						}
+					}
+					if !oka {
+						all = false
+					}
+				}
+				if all && n > 0 {
+					okA = true
+				}
+			}
 			r.Check(okA || okB, r4, fn, "clear persist flag", cs.Instr, tern3(okA, "in the success region of the executor's upload", "after every found write-back task was executed synchronously without error"),
 				"the persist flag is cleared in "+top+" neither in the success region of a write-back upload nor after a completed, error-free synchronous execution of every pending write-back task: the local copy becomes deletable before it is written back")
 		}
@@ -247,10 +271,28 @@ func checkC10(c *Ctx, r *Report) {
 	rulesPersistGuard(c, r)
 	defer rulesAccessTimeCoupdate(c, r)
 	// cleanup policies use only the funnel
-	r5 := r.Rule("R5", "E-OWN", "the cleanup manager deletes only through FileOp.DeleteFile, and treats ErrFilePersisted as 'skip'", 2)
+	r5 := r.Rule("R5", "E-OWN", "the cleanup manager deletes only through FileOp.DeleteFile, and treats ErrFilePersisted as 'skip'", 1)
 	n := 0
+	// the cleanup manager's methods and the private helpers of the package that
+	// only they call
+	cmFuncs := map[*ssa.Function]bool{}
+	cmNames := map[string]bool{}
 	for _, fn := range c.FuncsIn(pkgStore) {
-		if c.isFixture(fn) || recvTypeName(topFunc(fn)) != "lib/store.cleanupManager" {
+		if !c.isFixture(fn) && recvTypeName(topFunc(fn)) == "lib/store.cleanupManager" {
+			cmFuncs[fn] = true
+			cmNames[funcName(topFunc(fn))] = true
+		}
+	}
+	for _, fn := range c.FuncsIn(pkgStore) {
+		if c.isFixture(fn) || cmFuncs[fn] || fn.Signature.Recv() != nil {
+			continue
+		}
+		if callerAllowed(c, topFunc(fn), cmNames, 0) {
+			cmFuncs[fn] = true
+		}
+	}
+	for _, fn := range c.FuncsIn(pkgStore) {
+		if c.isFixture(fn) || !cmFuncs[fn] {
 			continue
 		}
 		for _, cs := range callsIn(fn) {
